@@ -31,7 +31,8 @@ MANIFEST = {
  }
 RULE = ("queue cases: 1-4 events with 0-4 handlers each (sync / wait+clear later / wait+clear at once / coroutine / posts an "
         "inner queue event, optionally passing its cell on and waiting for the inner callback to clear it / removes a "
-        "handler), priorities -2..2 with ties, 1-3 stimuli of 1-3 queue posts each, optionally followed in the same drain "
+        "handler; 30% of the sync handlers call replace_handler / remove_handler / remove_handler_by_event on their own "
+        "event during its dispatch, aimed at themselves, a peer or an absent callback), priorities -2..2 with ties, 1-3 stimuli of 1-3 queue posts each, optionally followed in the same drain "
         "by removals (handlers gone before the task starts); clear deadlines pairwise distinct on the 1/8 s grid. "
         "non-trivial = a wait was outstanding across a scheduler step, a queue event was posted from a handler or "
         "callback, or handlers were removed before a task started. relay/boolean cases: C01's generator with only "
@@ -104,6 +105,22 @@ class Gen:
         self.key_ev[key] = ev
         return ["A", ev, key, self.r.randint(-2, 2), self.handler_prog(ev)]
 
+    def mutator(self, ev, self_pid, peers):
+        """replace_handler / remove_handler / remove_handler_by_event called from a handler while its own queue event is
+        being dispatched; target = itself, a peer of the same event (served already or still waiting) or absent.
+        (coroutine handlers are registered as functools.partial objects and cannot be found by callback: never a target)"""
+        r = self.r
+        sync_peers = [p for p in peers if self.progs[str(p)]["kind"] == "s"]
+        x = r.random()
+        tgt = self_pid if x < 0.4 else (r.choice(sync_peers) if sync_peers and x < 0.85 else self.prog("s", []))
+        y = r.random()
+        if y < 0.55:
+            key = self.next_key
+            self.next_key += 1
+            self.key_ev[key] = ev
+            return ["H", ev, key, r.randint(-2, 2), tgt]
+        return ["E", ev, tgt] if y < 0.8 else ["M", tgt]
+
     def case(self):
         r = self.r
         boot = []
@@ -111,6 +128,11 @@ class Gen:
             for _ in range(r.choice([0, 1, 1, 2, 2, 3, 4])):
                 boot.append(self.handler(ev))
         r.shuffle(boot)
+        for a in list(boot):
+            p = self.progs[str(a[4])]
+            if p["kind"] == "s" and r.random() < 0.3:
+                peers = [b[4] for b in boot if b[1] == a[1]]
+                p["acts"].insert(r.randint(0, len(p["acts"])), self.mutator(a[1], a[4], peers))
         stimuli = []
         for _ in range(r.randint(1, 3)):
             posts = [["Q", r.randint(1, self.nev), self.cb_prog(r.choice([1, self.nev]), False), 0]
@@ -127,6 +149,25 @@ class Gen:
 # ---------------------------------------------------------------------------------------------------------------------
 # the real thing
 # ---------------------------------------------------------------------------------------------------------------------
+class QHandler:
+    """sync handler of a queue event; equal by callback identity (program id) like bound methods are"""
+
+    def __init__(self, real, key, pid):
+        self.real, self.key, self.pid = real, key, pid
+
+    def __call__(self, queue, sn, evn, **kwargs):
+        return self.real.call_handler(self.key, self.pid, queue, sn, evn)
+
+    def __eq__(self, other):
+        return isinstance(other, QHandler) and other.pid == self.pid
+
+    def __ne__(self, other):
+        return not self.__eq__(other)
+
+    def __hash__(self):
+        return hash(("QHandler", self.pid))
+
+
 class Real:
     def __init__(self, vm, case):
         self.vm = vm
@@ -188,20 +229,32 @@ class Real:
                 for k in self.keys.get(a[2], []):
                     self.ev.remove_handler_by_key(k)
                 self.L.append(("reg", "R", a[1], a[2]))
+            elif a[0] == "H":
+                _, ev, key, prio, pid = a
+                k = self.ev.replace_handler("qe%d" % ev, self.make_handler(key, pid), prio)
+                self.keys.setdefault(key, []).append(k)
+                self.L.append(("reg", "H", ev, key, prio, pid))
+            elif a[0] == "M":
+                self.ev.remove_handler(QHandler(self, None, a[1]))
+                self.L.append(("reg", "M", a[1]))
+            elif a[0] == "E":
+                self.ev.remove_handler_by_event("qe%d" % a[1], QHandler(self, None, a[2]))
+                self.L.append(("reg", "E", a[1], a[2]))
             else:
                 raise InfraError("bad act %r" % (a,))
 
     def make_handler(self, key, pid):
-        def handler(queue, sn, evn, **kwargs):
-            self.depth += 1
-            self.nested = self.nested or self.depth > 1
-            try:
-                c = self.cellno(queue)
-                self.L.append(("call", key, evn, sn, c))
-                self.run_acts(self.progs[str(pid)]["acts"], own=queue)
-            finally:
-                self.depth -= 1
-        return handler
+        return QHandler(self, key, pid)
+
+    def call_handler(self, key, pid, queue, sn, evn):
+        self.depth += 1
+        self.nested = self.nested or self.depth > 1
+        try:
+            c = self.cellno(queue)
+            self.L.append(("call", key, evn, sn, c))
+            self.run_acts(self.progs[str(pid)]["acts"], own=queue)
+        finally:
+            self.depth -= 1
 
     def make_coro(self, key, pid):
         async def coro(sn, evn, **kwargs):
@@ -309,12 +362,20 @@ def oracle(case, L, crash, left, nested):
     cleared = set()
     for i, e in enumerate(L):
         if e[0] == "reg":
-            if e[1] == "A":
+            if e[1] in ("A", "H"):
+                if e[1] == "H":
+                    key_pid[e[3]] = e[5]
+                    reg[e[2]] = [h for h in reg.get(e[2], []) if h[2] != e[5]]
                 lst = reg.setdefault(e[2], [])
                 j = len(lst)
                 while j > 0 and lst[j - 1][1] < e[4]:
                     j -= 1
-                lst.insert(j, (e[3], e[4]))
+                lst.insert(j, (e[3], e[4], key_pid.get(e[3])))
+            elif e[1] == "M":
+                for x in list(reg):
+                    reg[x] = [h for h in reg[x] if h[2] != e[2]]
+            elif e[1] == "E":
+                reg[e[2]] = [h for h in reg.get(e[2], []) if h[2] != e[3]]
             else:
                 reg[e[2]] = [h for h in reg.get(e[2], []) if h[0] != e[3]]
         elif e[0] == "post":
@@ -322,7 +383,7 @@ def oracle(case, L, crash, left, nested):
         elif e[0] in ("call", "acall", "cb"):
             sn = e[3] if e[0] == "call" else e[2]
             if sn not in started:
-                started[sn] = [k for k, _ in reg.get(posts.get(sn), [])]   # snapshot when the task starts
+                started[sn] = [h[0] for h in reg.get(posts.get(sn), [])]   # snapshot when the task starts
             if sn in waiting and waiting[sn] not in cleared:
                 return "overlap", {"what": "handler or callback of an event ran while an earlier handler's wait was outstanding",
                                    "sn": sn, "entry": list(e), "cell": waiting[sn]}
@@ -366,7 +427,8 @@ def is_nontrivial(L):
     waits = any(e[0] == "clear" for e in L)
     inner = any(e[0] == "post" and e[3] for e in L)
     sync = any(e[0] == "sync" for e in L)
-    return waits or inner or sync
+    mut = any(e[0] == "reg" and e[1] in ("H", "M", "E") for e in L)
+    return waits or inner or sync or mut
 
 
 # ---------------------------------------------------------------------------------------------------------------------
@@ -383,6 +445,12 @@ def enc_act(a):
         return "A %d %d %d %d" % (a[1], a[2], a[3], a[4])
     if a[0] == "R":
         return "R %d %d" % (a[1], a[2])
+    if a[0] == "H":
+        return "H %d %d %d %d" % (a[1], a[2], a[3], a[4])
+    if a[0] == "M":
+        return "M %d" % a[1]
+    if a[0] == "E":
+        return "E %d %d" % (a[1], a[2])
     raise InfraError("bad act %r" % (a,))
 
 
@@ -482,7 +550,7 @@ def shrink(case, sig):
     used, todo = set(), [a for a in small["boot"]] + [a for st in small["stimuli"] for a in st["posts"]]
     while todo:
         a = todo.pop()
-        pid = a[4] if a[0] == "A" else (a[2] if a[0] == "Q" else None)
+        pid = a[4] if a[0] in ("A", "H") else (a[2] if a[0] in ("Q", "E") else (a[1] if a[0] == "M" else None))
         if pid is not None and str(pid) not in used:
             used.add(str(pid))
             todo += small["progs"][str(pid)]["acts"]
@@ -498,6 +566,8 @@ def one_queue_case(ctx, model, case, sample=True):
             ctx.count("q_" + e[0])
         if e[0] == "post":
             ctx.count("q_post_from_handler" if e[3] else "q_post_top")
+        if e[0] == "reg" and e[1] in ("H", "M", "E"):
+            ctx.count("q_mutator_" + e[1])
     res = oracle(case, L, crash, left, nested)
     if res is not None:
         small = shrink(case, res[0])
@@ -629,6 +699,15 @@ def corpus():
                                              "8": {"kind": "s", "acts": [], "ticks": None}},
                   "boot": [["A", 1, 1, 2, 1], ["A", 1, 2, 2, 2], ["A", 1, 3, 0, 3], ["A", 1, 4, 0, 4], ["A", 2, 5, 0, 2]],
                   "stimuli": [{"posts": [["Q", 1, 9, 0], ["Q", 1, 9, 0], ["Q", 3, 8, 0]], "sync": [], "gap": 0}]})
+    # a handler replace_handler()s an already served peer / itself / removes a waiting peer while the queue event runs:
+    # the handlers of the snapshot are still called once each, in order, then the callback
+    cases.append({"kind": "queue", "progs": {"1": {"kind": "s", "acts": [], "ticks": None},
+                                             "2": {"kind": "s", "acts": [["H", 1, 21, 4, 1], ["H", 1, 22, 3, 2]], "ticks": None},
+                                             "3": {"kind": "s", "acts": [["W", 2], ["E", 1, 4]], "ticks": None},
+                                             "4": {"kind": "s", "acts": [["M", 3]], "ticks": None},
+                                             "9": {"kind": "s", "acts": [], "ticks": None}},
+                  "boot": [["A", 1, 1, 4, 1], ["A", 1, 2, 3, 2], ["A", 1, 3, 2, 3], ["A", 1, 4, 1, 4]],
+                  "stimuli": [{"posts": [["Q", 1, 9, 0]], "sync": [], "gap": 8}, {"posts": [["Q", 1, 9, 0]], "sync": [], "gap": 1}]})
     return cases
 
 
